@@ -799,7 +799,6 @@ type c20Plan struct {
 	Deep         int
 	DeepFull3    bool
 	DeepQuad     bool // add the quads
-	DeepNoTri    bool // leave the triples out
 	DeepMinFS    int
 	DeepTimes    []c20TimeRange
 	DeepSettings []c20Setting
@@ -859,10 +858,10 @@ func c20Plans(thorough bool) []c20Plan {
 			c20Plan{Schema: mk("sw,iw,k", c20StrCol("sw", false, false), c20IntGapCol("iw", false), c20IntCol("k", false, false)),
 				Rows: [3]int{3, 0, 0}, Times: nt, Settings: [3][]c20Setting{set2, set1, set1},
 				Deep: 3, DeepMinFS: 2, DeepTimes: noTime, DeepSettings: set1},
-			// four key columns in a reduced form: (left mark, row, right mark) triples, 1-atom trees and deep pairs only
+			// four key columns in a reduced form: (left mark, row, right mark) triples; 1-atom trees, deep pairs and triples
 			c20Plan{Schema: mk("i,j,k,l", c20IntCol("i", false, false), c20IntCol("j", false, false), c20IntCol("k", false, false), c20IntCol("l", false, false)),
 				Rows: [3]int{3, 0, 0}, Times: nt, Settings: [3][]c20Setting{set2, set1, set1},
-				Deep: 3, DeepMinFS: 2, DeepNoTri: true, DeepTimes: noTime, DeepSettings: set1},
+				Deep: 3, DeepMinFS: 2, DeepTimes: noTime, DeepSettings: set1},
 		)
 		return ps
 	}
@@ -1044,9 +1043,6 @@ func c20NewPKRun(p *c20Plan, rep *kit.Report, wi *int) *c20PKRun {
 		tri := small
 		if p.DeepFull3 {
 			tri = full
-		}
-		if p.DeepNoTri {
-			tri = make([][]int, nk)
 		}
 		for ca := 0; ca < nk; ca++ {
 			for cb := ca + 1; cb < nk; cb++ {
@@ -1470,12 +1466,14 @@ func c20Replay(t *testing.T, rep *kit.Report, cs *c20Case) {
 // ---------------------------------------------------------------------------------------------
 
 // c20RefKC re-implements KeyConditionImpl.checkInAnyRange (the recursion only; leaf evaluation, range
-// construction and the middle part are the original methods) with two switches:
-//   fixRight   - checkRangeRightBound returns the accumulated mark instead of only the right part's mark
-//   nullFirst  - a null index key is read as -infinity (where the writer's sorter puts it) instead of +infinity
-//   isolate    - a bound that Range.turnOpenRangeIntoClosed may rewrite in place (open integer bound) is a private
-//                copy instead of a reference into the cached index record
-// It is used only to NAME the cause of a violation that the unmodified code produced.
+// construction and the middle part are the original methods) with one switch per defect this check found in it
+// (all three are fixed in the repository now; the switches stay to name a regression):
+//   fixRight   - checkRangeRightBound returns the accumulated mark (current code) instead of only the right part's mark
+//   nullFirst  - a null index key that arrives as +infinity is read as -infinity (where the writer's sorter puts it);
+//                the current reader already hands over -infinity, so this is a no-op unless that regresses
+//   isolate    - a bound that Range.turnOpenRangeIntoClosed might rewrite in place (open integer bound) is a private
+//                copy instead of a reference into the cached index record (no-op with the current range.go)
+// It is used only to NAME the cause of a violation that the real code produced (see c20Classifier.kind).
 type c20RefKC struct {
 	*KeyConditionImpl
 	fixRight, nullFirst, isolate bool
